@@ -359,6 +359,9 @@ func TestC18(t *testing.T) {
 	r.Count("replies_with_id_nobody_sent", nUnknownReplies)
 	r.Count("replies_in_flood_histories_to_possibly_evicted_ids", nEvictedReplies)
 	r.Count("replies_overlapping_another_reply_of_same_id", nContended)
+
+	// second layer: the same property through the real session handlers of a live proxy
+	runE2E(r)
 }
 
 type stats struct{ v [8]int }
